@@ -84,9 +84,12 @@ def compiled_windows(cfg, obs):
         "snd": base.NodeRecord(info=None, clock=None, real_time_factor=None, ts_start=None, params=None, inputs={}, steps=steps_s),
         "rcv": base.NodeRecord(info=None, clock=None, real_time_factor=None, ts_start=None, params=None, inputs={"snd": base.InputRecord(info=None, messages=mrec)}, steps=steps_r)})
     graph_sa = rec.to_graph()  # the real conversion (pure repackaging: the SA cells flow through)
-    key = (W, n_s, n_r, E)
+    pad = cfg.get("pad", 0)
+    if pad:  # the episode as it looks inside a ragged stack (base.Graph.stack pads every leaf with -1 up to the longest episode)
+        graph_sa = jax.tree_util.tree_map(lambda sa: jx.SA(np.concatenate([sa.v, np.array([-1] * pad, dtype=object)]), sa.dtype), graph_sa, is_leaf=lambda x: isinstance(x, jx.SA))
+    key = (W, n_s + pad, n_r + pad, E + pad)
     if key not in _AW_CACHE:
-        nodes, graph0, Wtot = _build(W, n_s, n_r, E, False)
+        nodes, graph0, Wtot = _build(W, n_s + pad, n_r + pad, E + pad, False)
         _AW_CACHE[key] = (jx.Traced(lambda gr: utils.apply_window(nodes, gr), graph0), graph0)
     tr, graph0 = _AW_CACHE[key]
     # flatten the SA graph in the order of the traced example's leaves
@@ -154,6 +157,8 @@ def _concrete_diff(cfg, obs):
     g = base.Graph(vertices={"snd": base.Vertex(seq=a([s[0] for s in obs["s_steps"]], np.int32), ts_start=a([s[1] for s in obs["s_steps"]], np.float64), ts_end=a([s[2] for s in obs["s_steps"]], np.float64)),
                              "rcv": base.Vertex(seq=a([s[0] for s in obs["r_steps"]], np.int32), ts_start=a([s[1] for s in obs["r_steps"]], np.float64), ts_end=a([s[2] for s in obs["r_steps"]], np.float64))},
                    edges={("snd", "rcv"): base.Edge(seq_out=a([m[0] for m in msgs], np.int32), seq_in=a([m[1] for m in msgs], np.int32), ts_recv=a([m[3] for m in msgs], np.float64))})
+    if cfg.get("pad", 0):
+        g = jax.tree_util.tree_map(lambda x: np.concatenate([x, -np.ones(cfg["pad"], x.dtype)]), g)
     with jax.experimental.enable_x64():
         win = utils.apply_window(nodes, g).vertices["rcv"].windows["snd"]
     ok = True
@@ -339,7 +344,11 @@ def configs(tier):
                 out.append(dict(M=M, K=K, W=W, rate_in=ri, rate_out=ro, blocking=blocking, skip=skip, jitter=jitter))
     # scheduling / advance variants of the two nodes (PHASE scheduling, an advancing receiver that only waits for its blocking input)
     var = [dict(M=2, K=2, W=1, rate_in=10, rate_out=20, blocking=False, skip=False, jitter="latest", sched_rcv="phase", sched_snd="phase"),
-           dict(M=2, K=2, W=1, rate_in=10, rate_out=10, blocking=True, skip=False, jitter="latest", advance=True)]
+           dict(M=2, K=2, W=1, rate_in=10, rate_out=10, blocking=True, skip=False, jitter="latest", advance=True),
+           # a window larger than the group a step consumes (2 messages per step, window 3): the step keeps one message of the previous group
+           dict(M=3, K=2, W=3, rate_in=10, rate_out=20, blocking=False, skip=False, jitter="latest"),
+           # the recorded episode as a member of a ragged stack (trailing -1 vertices/edges) with a receiver that steps more often than it receives
+           dict(M=2, K=3, W=1, rate_in=20, rate_out=10, blocking=False, skip=False, jitter="latest", pad=1)]
     if th:
         var += [dict(M=3, K=2, W=2, rate_in=10, rate_out=20, blocking=True, skip=False, jitter="latest", sched_rcv="phase"),
                 dict(M=2, K=3, W=1, rate_in=20, rate_out=10, blocking=False, skip=True, jitter="latest", sched_snd="phase"),
